@@ -37,7 +37,7 @@ TRUSTED_BASE = [
     "Coq 8.16.1 kernel (coqc) incl. vm_compute; no native_compute",
     "axioms: exactly those printed by Print Assumptions under each property theorem (listed in coverage.axioms)",
     "translator tools/pyx2v.py and its numpy->Np whitelist (Gen/*.v regenerated from /repo on every run)",
-    "Np primitives as a semantics of numpy (validated by ./check np-primitives, not proved)",
+    "Np primitives as a semantics of numpy (validated by the prim_* / prim3*_ differential ops inside the C17 check, not proved; argsort tie order is not validated: numpy's default sort is not stable)",
     "correspondence harness: generators, float->ratio conversion, cases.v writer, canonicalisation, result parser",
     "modelled not verified: IEEE-754 rounding, BLAS/LAPACK/ARPACK, scipy L-BFGS-B, numpy.random, libc number text, Python dispatch",
 ]
@@ -233,9 +233,20 @@ def hygiene(roots):
         txt = open(p, errors="replace").read()
         # blank out comments (possibly multi-line) but keep line numbers
         txt = re.sub(r"\(\*.*?\*\)", lambda m: re.sub(r"[^\n]", " ", m.group(0)), txt, flags=re.S)
+        depth = 0          # nesting depth of open Sections (Modules do not count: a Variable in a Module is global)
+        stack = []
         for k, line in enumerate(txt.splitlines(), 1):
             if FORBIDDEN.search(line):
                 bad.append(f"{os.path.relpath(p, ROOT)}:{k}: {line.strip()[:120]}")
+            ms = re.match(r"\s*(Section|Module(?:\s+Type)?|Module\s+Import|Module\s+Export)\s+([A-Za-z0-9_']+)\b(.*)$", line)
+            if ms and ":=" not in ms.group(3):
+                stack.append((ms.group(2), ms.group(1) == "Section"))
+            me = re.match(r"\s*End\s+([A-Za-z0-9_']+)\s*\.", line)
+            if me and stack and stack[-1][0] == me.group(1):
+                stack.pop()
+            depth = sum(1 for _, is_sec in stack if is_sec)
+            if depth == 0 and re.match(r"\s*(Local\s+|Global\s+)?(Variable|Variables|Hypothesis|Hypotheses|Context)\b", line):
+                bad.append(f"{os.path.relpath(p, ROOT)}:{k}: assumption outside a Section: {line.strip()[:100]}")
     return bad
 
 
@@ -273,7 +284,19 @@ def assumptions(prop_files):
             if ok:
                 discharged += 1
                 theorems.append(name)
+    if obligations == 0:
+        problems.append("no theorem with Print Assumptions found in " + ", ".join(prop_files or ["<no theorem file>"]))
     return obligations, discharged, sorted(axioms), problems, theorems
+
+
+def expected_for(prop):
+    """coq/expected.json (committed; regenerated by tools/mkexpected.py at integration time): per property the theorem
+    names that must be present and discharged, and a floor for the number of evaluated correspondence cases per tier.
+    A theorem that disappears from Props/ or a correspondence stream that collapses is reported, not silently accepted."""
+    path = os.path.join(COQ, "expected.json")
+    if not os.path.exists(path):
+        return {}
+    return json.load(open(path)).get(prop, {})
 
 
 # ----------------------------------------------------------------------------------------
@@ -425,6 +448,10 @@ def run_property(mod, tier, seed):
     bad = hygiene(list(mod.THEOREM_FILES) + [t[:-1] for t in mod.COQ_TARGETS])
     obligations, discharged, axioms, problems, theorems = assumptions(mod.THEOREM_FILES)
     problems = bad + problems
+    expected = expected_for(prop)
+    missing = [t for t in expected.get("theorems", []) if t not in theorems]
+    if missing:
+        problems.append("theorems listed in coq/expected.json are no longer present and discharged: " + ", ".join(missing[:40]))
     lock.__exit__()
     if problems:
         path = write_replay(prop, {"property": prop, "kind": "hygiene", "problems": problems})
@@ -440,6 +467,8 @@ def run_property(mod, tier, seed):
     exprs = []
     keep = []
     hist = {}
+    ncheckfail = 0
+    nskipped = 0
     for c in cases:
         try:
             o = mod.run_impl(c)
@@ -449,13 +478,21 @@ def run_property(mod, tier, seed):
             e = mod.coq_check(c, o)
         except Exception as ex:
             e = None
+            ncheckfail += 1
             notes.append(f"coq_check failed on {c.op}: {type(ex).__name__}: {ex}")
         if e is None:
+            nskipped += 1
             continue
         keep.append(c)
         obs.append(o)
         exprs.append(e)
         hist[c.op] = hist.get(c.op, 0) + 1
+    floor = max(1, int(expected.get("min_cases", {}).get(tier, 1)))
+    if ncheckfail or len(keep) < floor:
+        why_ = (f"{ncheckfail} case(s) could not be turned into a model check (coq_check raised); " if ncheckfail else "") + \
+               (f"only {len(keep)} correspondence cases were evaluated ({nskipped} skipped), expected at least {floor}" if len(keep) < floor else "")
+        path = write_replay(prop, {"property": prop, "kind": "correspondence-did-not-run", "detail": why_, "notes": notes[:20]})
+        violations.append((path, "no-failing-input-found"))
     failing, err = run_coq_cases(prop, mod.COQ_IMPORTS, exprs, shard=getattr(mod, "SHARD", 400))
     if err:
         path = write_replay(prop, {"property": prop, "kind": "model-evaluation-error", "error": err[-4000:]})
@@ -513,17 +550,16 @@ def run_property(mod, tier, seed):
     coqchk = None
     if tier == "thorough":
         libs = " ".join("PV." + pf[:-2].replace("/", ".") for pf in mod.THEOREM_FILES)
-        rc_, out_ = sh(f"timeout 1500 coqchk -silent -o -Q theories PV {libs}", cwd=COQ, timeout=1530)
+        rc_, out_ = sh(f"timeout 3000 coqchk -silent -o -Q theories PV {libs}", cwd=COQ, timeout=3030)
         m_ = re.search(r"\* Axioms:(.*?)\n\s*\n\* Constants/Inductives relying on type-in-type:(.*?)\n", out_, re.S)
         coqchk = {"exit": rc_, "axioms": (m_.group(1).split() if m_ else None), "tail": out_[-600:]}
         if rc_ == 0 and m_:
             for ax in [a for a in m_.group(1).split() if a != "<none>"]:
-                base = ax.split(".")[-1]
-                if not any(base == al.split(".")[-1] for al in ALLOWED_AXIOMS) and not ax.startswith("Coq.") :
+                if not any(ax == al or ax.endswith("." + al) for al in ALLOWED_AXIOMS):
                     path = write_replay(prop, {"property": prop, "kind": "coqchk-axiom", "axiom": ax})
                     violations.append((path, "no-failing-input-found"))
-        elif rc_ not in (0, 124):
-            path = write_replay(prop, {"property": prop, "kind": "coqchk-failure", "log": out_[-3000:]})
+        else:   # non-zero exit, timeout, or a summary this parser does not recognise: the re-check did not succeed
+            path = write_replay(prop, {"property": prop, "kind": "coqchk-failure", "exit": rc_, "log": out_[-3000:]})
             violations.append((path, "no-failing-input-found"))
 
     # 6. evidence -----------------------------------------------------------------------
@@ -541,7 +577,7 @@ def run_property(mod, tier, seed):
         "rule": getattr(mod, "RULE", "generated by tools/props module; non-trivial = flagged by the generator"),
         "samples": samples or [{"note": "no correspondence cases"}],
         "traces_validated_against_impl": len(keep),
-        "op_histogram": hist, "tie_A": tieA, "mismatches": len(failing),
+        "op_histogram": hist, "tie_A": tieA, "mismatches": len(failing), "skipped_cases": nskipped,
         "attributed_to_known_findings": attributed, "notes": notes[:20],
         "explanation": getattr(mod, "EXPLANATION", ""),
         "correspondence_only_ops": getattr(mod, "CORRESPONDENCE_ONLY", []),
@@ -609,5 +645,13 @@ def main(argv):
     prop = argv[1]
     tier = argv[2] if len(argv) > 2 else os.environ.get("VERIF_TIER", "quick")
     seed = int(os.environ.get("VERIF_SEED", "20260929"))
-    mod = importlib.import_module("props." + prop.lower())
-    return run_property(mod, tier, seed)
+    if tier not in ("quick", "thorough"):
+        print("usage: check <ID> quick|thorough | check replay <file>")
+        return 2
+    try:
+        mod = importlib.import_module("props." + prop.lower())
+        return run_property(mod, tier, seed)
+    except Exception:      # the checker itself crashed: the property is not shown to hold by this run
+        path = write_replay(prop, {"property": prop, "kind": "checker-crash", "traceback": traceback.format_exc()[-4000:]})
+        print(f"VIOLATION property={prop} replay={path} no-failing-input-found")
+        return 1
